@@ -82,3 +82,40 @@ func HarnessScalarSmall(p0 int) {
 		vassert(a.v == old, "the copy does not share storage with its source")
 	}
 }
+
+// native replay: SetBytes / SetInt64 against math/big for every input length 0..96 and boundary patterns
+func HarnessScalarAPIReplay(p0 int) {
+	ok := true
+	L := primeOrder.ToBigInt()
+	check := func(b []byte) {
+		var s scalar
+		saStale(&s)
+		s.SetBytes(b)
+		want := new(big.Int).Mod(saLE(b), L)
+		ok = ok && saLE(s.v[:]).Cmp(want) == 0
+	}
+	for n := 0; n <= 96; n++ {
+		for _, pat := range []byte{0x00, 0xff, 0x01, 0x80} {
+			b := make([]byte, n)
+			for i := range b {
+				b[i] = pat
+			}
+			check(b)
+			if n > 0 {
+				c := make([]byte, n)
+				c[n-1] = pat | 1 // only the most significant byte set
+				check(c)
+			}
+		}
+	}
+	for _, v := range []int64{0, 1, -1, 1 << 62, -(1 << 62), 9223372036854775807, -9223372036854775808} {
+		var s scalar
+		s.SetInt64(v)
+		want := new(big.Int).Mod(big.NewInt(v), L)
+		ok = ok && saLE(s.v[:]).Cmp(want) == 0
+	}
+	for _, id := range []string{"SetBytes returns the receiver", "SetBytes: the result is canonical (value < l)", "SetBytes: the result is the little-endian value of the input reduced modulo l",
+		"SetInt64: the result is canonical (value < l)", "SetInt64: the result is congruent to the argument modulo l"} {
+		vassert(ok, id)
+	}
+}
